@@ -168,25 +168,25 @@ Qed.
 (* ------------------------------------------------------------------ the invariant *)
 Definition finset (r : greg -> Z) : bool := nz (r FIN) && nz (r CTX).
 
-(* global part: registers only.  [group non-empty] is written Z.min 1 (r GVAL) (r GVAL >= 0) *)
+(* global part: registers only, written in linear form (no implications) so that lia decides the step cases
+   quickly; the readable consequences are derived below (Greg_readable).
+   [group non-empty] is Z.min 1 (r GVAL); [ref = -1] is 1 - Z.min 1 (r IREF + 1) *)
 Definition Greg (r : greg -> Z) (pv : kind -> Z) : Prop :=
   (0 <= r XPOOL /\ 0 <= r IPOOL /\ 0 <= r EPOOL /\ 0 <= r NLEN /\ 0 <= r GVAL) /\
-  ((r XALIVE = 0 \/ r XALIVE = 1) /\ (r GNOT = 0 \/ r GNOT = 1) /\ (r NTAIL = 0 \/ r NTAIL = 1)) /\
-  (* external count *)
-  (r XREF + 1 = r XPOOL + pv KX /\ (r XALIVE = 1 -> 0 <= r XREF) /\ (r XALIVE = 0 -> r XREF = -1)) /\
+  (0 <= r XALIVE <= 1 /\ 0 <= r GNOT <= 1 /\ 0 <= r NTAIL <= 1) /\
+  (* external count: one token per unit; xref = -1 exactly when the last external reference is gone *)
+  (r XREF + 1 = r XPOOL + pv KX /\ r XALIVE - 1 <= r XREF /\ r XREF + 1 <= MAXC * r XALIVE) /\
   (* internal count: refs_account *)
   (r IREF + 1 = r XALIVE + r IPOOL + (Z.min 1 (r GVAL) - pv KPE) + (r NTAIL - pv KPN) + pv KI) /\
   (* group value *)
   (r GVAL = r EPOOL + pv KE + pv KPE /\ pv KPE <= 1) /\
   (* notify list: exactly one owner of the duty to deliver the pending batch *)
-  ((r NTAIL = 1 -> pv KPN + r GNOT + pv KD = 1) /\
-   (r NTAIL = 0 -> pv KPN = 0 /\ r GNOT = 0 /\ pv KD = 0 /\ r NLEN = 0)) /\
+  (pv KPN + r GNOT + pv KD = r NTAIL /\ (r NTAIL = 0 -> r NLEN = 0)) /\
   (* notification queue and target queue references *)
   (r QRET - r QREL = r NLEN + pv KQ /\ r TRET - r TREL = 1 - r DISP) /\
   (* disposal bookkeeping *)
-  ((r XALIVE = 1 -> r XDISP = 0 /\ pv KXD = 0) /\ (r XALIVE = 0 -> r XDISP + pv KXD = 1) /\
-   (0 <= r IREF -> r DISP = 0 /\ pv KDP = 0) /\ (r IREF = -1 -> r DISP + pv KDP = 1) /\ 0 <= r DISP /\
-   r FREED = r DISP) /\
+  (r XDISP + pv KXD = 1 - r XALIVE /\ 0 <= r XDISP /\
+   r DISP + pv KDP = 1 - Z.min 1 (r IREF + 1) /\ 0 <= r DISP /\ r FREED = r DISP) /\
   (r NFIN = (if (r DISP =? 1) && finset r then 1 else 0) /\ (r NFIN = 1 -> r FINCTX = r CTX /\ r FINQ = r TQ)) /\
   (r CRASH = 0 /\ r XREF < MAXC /\ r IREF < MAXC).
 
